@@ -122,6 +122,8 @@ impl OutputFormatter for PlanResult {
     }
 
     fn format_json(&self) -> String {
+        // `json!` panics on a value that cannot be represented (a path that is not valid UTF-8)
+        let plan = serde_json::to_value(&self.plan).unwrap_or(serde_json::Value::Null);
         serde_json::to_string(&json!({
             "success": true,
             "operation": if self.replace.is_empty() { "search" } else { "plan" },
@@ -134,7 +136,7 @@ impl OutputFormatter for PlanResult {
                 "total_matches": self.total_matches,
                 "renames": self.renames,
             },
-            "plan": self.plan,
+            "plan": plan,
         }))
         .unwrap_or_default()
     }
@@ -389,6 +391,8 @@ impl OutputFormatter for RenameResult {
     }
 
     fn format_json(&self) -> String {
+        // `json!` panics on a value that cannot be represented (a path that is not valid UTF-8)
+        let plan = serde_json::to_value(&self.plan).unwrap_or(serde_json::Value::Null);
         serde_json::to_string(&json!({
             "success": true,
             "operation": "rename",
@@ -401,7 +405,7 @@ impl OutputFormatter for RenameResult {
                 "renames": self.renames,
             },
             "committed": self.committed,
-            "plan": self.plan,
+            "plan": plan,
         }))
         .unwrap_or_default()
     }
